@@ -3,7 +3,7 @@ import ast
 
 import numpy as np
 
-from vlib import clock, graphs as G, gens, oracles
+from vlib import alias, clock, graphs as G, gens, oracles
 from vlib.base import import_dsw
 from props._repair import generated_graph, call_repair, well_formed
 
@@ -68,6 +68,27 @@ def _corrupt(rng, w, n_edits, where="any"):
 def generate(ctx):
     rng = ctx.rng
     dsw = import_dsw()
+    for _ in range(ctx.pick(30, 300)):
+        k = rng.choice([1, 2, 2, 3])
+        states, first = [], None
+        for _s in range(rng.randint(2, 4)):
+            a = gens.arc_graph(rng, k)
+            if a is None:
+                continue
+            if first is None:
+                first = int(rng.choice(G.live_vertices(a)))
+            states.append(G.acc_to_hex(a))
+        if len(states) < 2:
+            continue
+        accs = [G.hex_to_acc(k, h) for h in states]
+        strings = []
+        for i, a in enumerate(accs):
+            ss = []
+            for b in (a, accs[(i + 1) % len(accs)], accs[i - 1]):
+                if (b[first] >= 0).any():
+                    ss.append(G.random_walk(b, first, rng.randint(k, 4 * k + 6), rng))
+            strings.append(ss)
+        yield "edit_sequence", dict(k=k, states=states, strings=strings, start=first, indel=rng.random() < 0.5)
     for _ in range(ctx.pick(500, 5000)):
         k = rng.choice([1, 2, 2, 3, 3, 4])
         if rng.random() < 0.5:
@@ -100,14 +121,48 @@ def generate(ctx):
                 check = {"none": None, "own": oracles.vt(s, nvt), "original": oracles.vt(w, nvt),
                          "arbitrary": gens.random_dna(rng, nvt)}[ck]
                 yield "repair", dict(gcase, start=int(start), s=s, original=w, check=check, ck=ck, indel=rng.random() < 0.6,
-                                     heap=rng.choice(HEAPS), tag=tag)
+                                     heap=rng.choice(HEAPS), tag=tag, npstr=rng.random() < 0.15, again=rng.random() < 0.15)
 
 
-def check_repair(ctx, case):
+def check_edit_sequence(ctx, case):
+    """G2: the same accessor object is overwritten in place between repairs; a clean walk of the *current* content
+    must come back alone with zero detected errors, and what is no walk of the current content must not."""
+    k = case["k"]
+    live = G.hex_to_acc(k, case["states"][0])
+    for i, arcs in enumerate(case["states"]):
+        live[...] = G.hex_to_acc(k, arcs)
+        for s in case["strings"][i]:
+            if len(s) < k:
+                continue
+            sub = dict(k=k, arcs=arcs, start=case["start"], s=s, check=None, ck="none", indel=case["indel"], heap=1e3, tag="edit-sequence",
+                       original=s, fam="edit-sequence")
+            before = ctx.violation_count
+            check_repair(ctx, sub, acc_obj=live)
+            if ctx.violation_count > before:
+                ctx.violations[-1]["check"], ctx.violations[-1]["case"] = "edit_sequence", case
+                return
+    ctx.cls("edit sequences (same accessor object overwritten in place)")
+    ctx.done("edit_sequence", case, True)
+
+
+def check_repair(ctx, case, acc_obj=None):
     dsw = import_dsw()
-    acc = gens.acc_of(case)
+    acc = gens.acc_of(case) if acc_obj is None else acc_obj
     k, s, start, check = case["k"], case["s"], case["start"], case["check"]
-    kind, res, _r, _steps = call_repair(dsw, s, acc, start, k, check=check, has_indel=case["indel"], heap=case["heap"])
+    passed = np.str_(check) if (check is not None and case.get("npstr")) else check
+    kind, res, _r, _steps = call_repair(dsw, s, acc, start, k, check=passed, has_indel=case["indel"], heap=case["heap"])
+    if kind == "ok" and well_formed(res) and acc_obj is None and case.get("again"):
+        # G1: scramble the returned candidates, repeat the identical call on the same accessor object
+        fn = lambda: dsw.repair_dna(s, acc, start, k, vt_check=passed, has_indel=case["indel"], heap_size=case["heap"])  # noqa
+        first = fn()
+        checked, same, second = alias.repeat_after_scramble(lambda: fn(), (), {}, first)
+        if checked:
+            ctx.cls("identical call repeated after its result was scrambled")
+            if not same:
+                ctx.fail("repeated-call-returns-scrambled-result", "the same repair_dna call, repeated after the caller edited the first "
+                         "result in place, returned %s" % (repr(second)[:200]))
+    if passed is not check:
+        ctx.cls("check passed as numpy.str_")
     where = "k=%d start=%s s=%s check=%s has_indel=%s heap=%s graph=%s" % (k, G.kmer(start, k), s, check, case["indel"], case["heap"], case["arcs"])
     is_walk = G.walk(acc, start, s)["ok"]
     nontrivial = check is not None or not is_walk
@@ -155,10 +210,13 @@ def check_repair(ctx, case):
                 ctx.cls("product|no check")
     ctx.cls("string|" + case["tag"])
     ctx.cls("heap|%g" % case["heap"])
-    ctx.done("repair", case, nontrivial)
+    if acc_obj is None:
+        ctx.done("repair", case, nontrivial)
+    else:
+        ctx.evaluations += 1
 
 
-CHECKS = {"repair": check_repair}
+CHECKS = {"repair": check_repair, "edit_sequence": check_edit_sequence}
 
 
 def floors(agg, tier):
@@ -167,6 +225,10 @@ def floors(agg, tier):
     for name, need in (("clean|no check", 200), ("clean|check matches", 200), ("clean|check disagrees", 100),
                        ("fallback|check mismatches", 100), ("fallback|check matches", 100), ("product|with check", 100),
                        ("product|check filtered a candidate out", 30), ("string|last-window", 100), ("string|first-window", 100)):
+        if c.get(name, 0) < need:
+            out.append("%s observed %d < %d" % (name, c.get(name, 0), need))
+    for name, need in (("edit sequences (same accessor object overwritten in place)", 100), ("check passed as numpy.str_", 500),
+                       ("identical call repeated after its result was scrambled", 500)):
         if c.get(name, 0) < need:
             out.append("%s observed %d < %d" % (name, c.get(name, 0), need))
     hits = [k for k in agg["monitors"] if k.startswith("probe-hits:repair_dna:return")]
